@@ -49,6 +49,9 @@ impl Stats {
         for (k, v) in &out.probes {
             self.add(&format!("probe.{k}"), *v);
         }
+        if !out.late_tasks.is_empty() {
+            self.count("probe.run_returned_with_tasks_in_flight");
+        }
         if out.idle_polls > 0 {
             self.add("sched.idle_polls", out.idle_polls as u64);
         }
